@@ -1828,7 +1828,7 @@ public:
 	}
 
 	// casts to native types
-	int to_int() const { return int(to_native<float>()); }
+	int to_int() const { return int(to_native<double>()); }
 	long to_long() const { return long(to_native<double>()); }
 	long long to_long_long() const { return (long long)(to_native<double>()); }
 
